@@ -4,6 +4,7 @@ import (
 	"bytes"
 	"fmt"
 	"math/big"
+	"os"
 	"sort"
 	"strings"
 
@@ -12,6 +13,9 @@ import (
 )
 
 func newBuf() *bytes.Buffer { return new(bytes.Buffer) }
+
+// debugStake (SIM_DEBUG_STAKE): per-block dump of every stake address (developer aid).
+var debugStake = os.Getenv("SIM_DEBUG_STAKE") != ""
 
 type prodObs struct {
 	present                       bool
@@ -268,6 +272,37 @@ func (r *run) c28Invariants(h uint32, when string, acct *blockAcct, byz bool) {
 		}
 	}
 	v2run := r.inst.arb.IsDPoSV2Run(h)
+	// A producer held in two of the state's producer maps at once is handed out
+	// twice by every "all producers" walk: its expiring votes are released
+	// twice. Violations in a run where that has happened carry the cause in
+	// their signature, so that a listed finding about it covers nothing else.
+	if !r.dualListed {
+		in := map[string][]string{}
+		for _, nm := range []struct {
+			name string
+			m    map[string]*state.Producer
+		}{{"pending", st.PendingProducers}, {"active", st.ActivityProducers}, {"inactive", st.InactiveProducers}, {"canceled", st.CanceledProducers}, {"illegal", st.IllegalProducers}} {
+			for key := range nm.m {
+				in[key] = append(in[key], nm.name)
+			}
+		}
+		var dual []string
+		for key, names := range in {
+			if len(names) > 1 {
+				dual = append(dual, fmt.Sprintf("%.8s:%s", key, strings.Join(names, "+")))
+			}
+		}
+		if len(dual) > 0 {
+			sort.Strings(dual)
+			r.dualListed = true
+			c.Probe("producer-listed-in-two-state-maps")
+			c.Logf("%s %d: producer(s) listed in two state maps: %v", when, h, dual)
+		}
+	}
+	dualSfx := ""
+	if r.dualListed {
+		dualSfx = "/after-a-producer-was-listed-in-two-state-maps"
+	}
 	seen := map[common.Uint168]bool{}
 	var addrs []common.Uint168
 	for k := range st.DposV2VoteRights {
@@ -293,6 +328,11 @@ func (r *run) c28Invariants(h uint32, when string, acct *blockAcct, byz bool) {
 		rights, used := st.DposV2VoteRights[k], st.UsedDposV2Votes[k]
 		sfx := ""
 		if byz && acct != nil && acct.stakeTxs[k] > 1 {
+			// (the damage of two renewals of one vote in one block shows when
+			// the copies expire, many blocks later: the cause stays with the address)
+			r.stakeByz[k] = true
+		}
+		if r.stakeByz[k] {
 			sfx = "/byzantine-block"
 		}
 		c.Check()
@@ -300,14 +340,39 @@ func (r *run) c28Invariants(h uint32, when string, acct *blockAcct, byz bool) {
 			continue // already reported for this address when it first went wrong
 		}
 		kk0 := k
-		if rights < 0 || used < 0 || used > rights || (!v2run && st.GetUsedDPoSVoteRights(&kk0) > rights) {
+		// the votes really standing on producers for this address (the state's
+		// own UsedDposV2Votes counter is bookkeeping, not the votes)
+		var standing common.Fixed64
+		seenVote := map[common.Uint256]bool{}
+		for _, dv := range st.GetDetailedDPoSV2Votes(&kk0) {
+			// (a producer listed in two of the state's maps is handed out twice)
+			if rk := dv.ReferKey(); seenVote[rk] {
+				continue
+			} else {
+				seenVote[rk] = true
+			}
+			for _, vi := range dv.Info {
+				standing += vi.Votes
+			}
+		}
+		if debugStake {
+			line := fmt.Sprintf("DBG %s %d stake %x rights=%d used=%d standing=%d:", when, h, k[:4], int64(rights), int64(used), int64(standing))
+			for _, dv := range st.GetDetailedDPoSV2Votes(&kk0) {
+				line += fmt.Sprintf(" [%x votes=%d lock=%d at=%d]", dv.ReferKey().Bytes()[:3], int64(dv.Info[0].Votes), dv.Info[0].LockTime, dv.BlockHeight)
+			}
+			c.Logf("%s", line) // (shown by VERIF_SHOWLOG=1 ./check replay <file>)
+		}
+		if rights < 0 || used < 0 || used > rights || standing > rights || (!v2run && st.GetUsedDPoSVoteRights(&kk0) > rights) {
 			r.stakeBad[k] = true
+		}
+		if standing > rights && used <= rights {
+			c.Violate("C28", "vote-rights", "C28/v2-votes-standing-on-producers-exceed-rights"+dualSfx+sfx, "%s %d: DPoS v2 votes of a stake address standing on producers %d, vote rights %d (the state's used-votes counter says %d)", when, h, int64(standing), int64(rights), int64(used))
 		}
 		if rights < 0 {
 			c.Violate("C28", "vote-rights", "C28/vote-rights-negative"+sfx, "%s %d: stake address vote rights %d", when, h, int64(rights))
 		}
 		if used < 0 {
-			c.Violate("C28", "vote-rights", "C28/used-v2-votes-negative"+sfx, "%s %d: stake address used DPoS v2 votes %d", when, h, int64(used))
+			c.Violate("C28", "vote-rights", "C28/used-v2-votes-negative"+dualSfx+sfx, "%s %d: stake address used DPoS v2 votes %d", when, h, int64(used))
 		}
 		if used > rights {
 			c.Violate("C28", "vote-rights", "C28/used-v2-votes-exceed-rights"+sfx, "%s %d: stake address uses %d DPoS v2 votes with %d rights", when, h, int64(used), int64(rights))
